@@ -18,3 +18,4 @@ open CaddyModel.C16
 #print axioms sort_cross_kind_invariant_full_fails
 #print axioms lex_total
 #print axioms lex_deterministic
+#print axioms sort_perm_invariant_of_distinct
